@@ -107,6 +107,24 @@ def gen_one(rng):
         toks += ["PD", str(key), str(prof), str(vrf), str(base), str(nb), "64"]
         poolsd.append((key, prof, vrf, base, nb))
         key += 1
+    # a share of configurations that Config.Validate must refuse: a second pool of the same family that shares an
+    # address / lies inside the network of an existing pool of the SAME VRF (in the other profile or the same one)
+    if rng.random() < 0.05:
+        c = rng.random()
+        if c < 0.5 and pools4:
+            q = rng.choice(pools4)
+            if q[4] >= q[3]:
+                toks += ["P4", str(key), str(rng.choice([0, 1])), str(q[2]), str(q[4]), str(q[4] + rng.choice([0, 1])), "-"]
+                key += 1
+        elif c < 0.75 and pools6:
+            q = rng.choice(pools6)
+            if q[4] >= q[3]:
+                toks += ["P6", str(key), str(rng.choice([0, 1])), str(q[2]), str(q[3]), str(q[3])]
+                key += 1
+        elif poolsd:
+            q = rng.choice(poolsd)
+            toks += ["PD", str(key), str(rng.choice([0, 1])), str(q[2]), str(q[3]), "63", "64"]
+            key += 1
     groups = [(0, "0", "0"), (1, "1", "1"), (2, "0", "-"), (3, "-", "0")]
     for g, a, b in groups:
         toks += ["G", str(g), a, b]
@@ -219,6 +237,9 @@ def gen_b(rng):
         size = rng.choice([1, 1, 2, 3])
         toks += ["P4", str(i + 1), str(rng.choice([0, 0, 1])), str(rng.choice([0, 0, 1])), str(lo), str(lo + size - 1), "-"]
         pools.append((i + 1, lo, lo + size - 1))
+    if rng.random() < 0.04:
+        k0, lo0, hi0 = pools[0]
+        toks += ["P4", "6", "1", toks[toks.index("P4") + 3], str(hi0), str(hi0 + 1), "-"]   # rejected by Config.Validate
     # dual stack: profile q0 with a small IA_NA pool and a PD pool; group 2 = (p0, q0)
     dual = rng.random() < 0.6
     if dual:
@@ -901,17 +922,6 @@ def signature(case, impl, models):
         # (monitor in ocaml/C02_run.ml, run on every case): never a known finding
         mk = d0[2].split(" | !dup ")[1]
         fam = mk.split(":")[0]
-        if fam in ("4", "6"):
-            a = int(mk.split(":")[1].split("/")[0])
-            t = segs(case)[0].split()
-            per_vrf = {}
-            for i, tok in enumerate(t):
-                if tok == "P" + fam and int(t[i + 4]) <= a <= int(t[i + 5]):
-                    per_vrf[t[i + 3]] = per_vrf.get(t[i + 3], 0) + 1
-            if any(n > 1 for n in per_vrf.values()):
-                # the configuration has two pools of one family and one VRF that both contain the address: the
-                # hypothesis DISJ of C02_unique is violated by the configuration itself, which /repo accepts
-                return "pools-overlap-within-vrf-accepted"
         return "monitor:" + fam
     if impl == models.get(VARIANTS[1]) and impl != models.get(_v(FIXED | {8})):
         # restore kept an address whose re-reservation conflicted: needs an earlier open finding to produce the two
@@ -1064,6 +1074,7 @@ def distribution(cases, impl):
                 k += ":fallback" if "told=%d" % FALLBACK in s else (":none" if "told=nil" in s else ":addr")
             d[k] = d.get(k, 0) + 1
     d["cases"] = len(cases)
+    d["rejected_config"] = sum(1 for o in impl if o == "rejected-config")   # Config.Validate refused the pools
     d.update(benign_share(cases, impl))
     d["monitor_violations"] = sum(1 for c, o in zip(cases, impl) if not c.startswith("B ") and monitor(c, o))
     return d
